@@ -25,7 +25,7 @@ var PlainNames = []string{"a", "b", "c", "d", "sub", "x.txt", "with space", "ün
 var ExoticNames = []string{"bad\xff\xfename", TemporaryPrefix + "zz", TemporaryPrefix + "cross-device-rename1"}
 
 var filePerms = []uint32{0o644, 0o600, 0o755, 0o700, 0o444, 0o640, 0o711, 0o604, 0o654}
-var dirPerms = []uint32{0o755, 0o700, 0o750, 0o711}
+var dirPerms = []uint32{0o755, 0o700, 0o750, 0o711, 0o744, 0o754}
 
 // Content returns deterministic bytes for a content id and length, such that
 // different ids give different bytes.
